@@ -61,6 +61,10 @@ def run_shard(spec):
         from vf.scenario import run_shard as rs
 
         return rs(spec)
+    if spec.get("part") == "scripted-physics":
+        from vf.props import scripted as SC
+
+        return SC.run_batch(spec)
     return verify_policy(spec)
 
 
@@ -88,9 +92,35 @@ def verify_policy(spec):
     return {"excess": out, "counts": counts}
 
 
+def scripted_part(rep, tier, seed):
+    """The real search classes on scripted physics (vf/props/scripted.py): this property's clauses with the full table known."""
+    from vf.pool import run_pool as _rp
+
+    specs = [{"part": "scripted-physics", "seed": seed, "shard": s, "nshards": 16, "n1d": {"quick": 24, "thorough": 48}[tier],
+              "nnested": {"quick": 150, "thorough": 1500}[tier]} for s in range(16)]
+    runs = 0
+    stats = {}
+    for r in _rp("vf.props.%s" % PROP, specs, timeout=3600):
+        if "_harness_error" in r:
+            rep.inconclusive.append("scripted shard failed: " + r["_harness_error"][:300])
+            continue
+        runs += r["runs"]
+        for k, v in r["stats"].items():
+            stats[k] = stats.get(k, 0) + v
+        for v in r["viol"][PROP]:
+            rep.violate(v["mechanism"], v["message"], {"case": v["case"]})
+    rep.evaluations += runs
+    rep.extra["scripted_physics_runs"] = runs
+    rep.extra["scripted_physics_stats"] = stats
+    if runs == 0:
+        rep.inconclusive.append("scripted-physics runs did not execute")
+    return stats
+
+
 def check(tier, seed):
     recs, problems = PC.records(tier, seed)
     rep = Report(PROP)
+    _sstats = scripted_part(rep, tier, seed)
     rep.rule = (
         "scenario pool as C01 with load magnitudes from far below to far beyond the land's capacity, caps from a few boreholes to beyond the "
         "largest field, continue flag both ways, height windows 1..300 m wide; non-degenerate inputs by construction (spacing windows hold an "
